@@ -227,7 +227,7 @@ def generate(rng, prop, tier):
         if sc['tkind'] in ('sq', 'sqdiff'):
             sc['r'] = rng.randint(1, 2)
     elif mode == 'steer_square':
-        sc['tkind'] = rng.choice(['normal', 'normal', 'zeros', 'scaled', 'nearorth', 'nearorth', 'overranked', 'overranked'])
+        sc['tkind'] = rng.choice(['normal', 'normal', 'zeros', 'scaled', 'nearorth', 'nearorth', 'overranked', 'overranked', 'sumdup', 'sumdup'])
         sc['prehistory'] = rng.random() < 0.3
     elif mode == 'adversarial':
         sc['fn'] = rng.choice(['sample', 'sample', 'sample_square', 'sample_square_unique', 'sample_square_unique', 'sample_lhs', 'sample_lhs',
@@ -261,6 +261,24 @@ def generate(rng, prop, tier):
 def build_tensor(sc):
     n, r, kind = sc['n'], sc['r'], sc['tkind']
     g = gen(sc['tseed'] + 1)
+    if kind == 'sumdup':
+        # A + (B + B) without rounding: block cores with exactly repeated (linearly dependent) rows / columns
+        def tt_add(P, Q):
+            out = []
+            for k, (a, b) in enumerate(zip(P, Q)):
+                if k == 0:
+                    out.append(np.concatenate([a, b], axis=2))
+                elif k == len(P) - 1:
+                    out.append(np.concatenate([a, b], axis=0))
+                else:
+                    top = np.concatenate([a, np.zeros((a.shape[0], a.shape[1], b.shape[2]))], axis=2)
+                    bot = np.concatenate([np.zeros((b.shape[0], b.shape[1], a.shape[2])), b], axis=2)
+                    out.append(np.concatenate([top, bot], axis=0))
+            return out
+        A = make_tt(n, 1, sc['tseed'], dist='normal')
+        B = make_tt(n, min(r, 2), sc['tseed'] + 3, dist='normal')
+        order = int(g.integers(0, 3))
+        return tt_add(A, tt_add(B, B)) if order == 0 else (tt_add(tt_add(B, B), A) if order == 1 else tt_add(B, tt_add(A, B)))
     if kind in ('overranked', 'overpos'):
         # a rank profile with bonds larger than the neighbouring cores can carry (r_k > n_k * r_{k+1}), as un-rounded sums / products have
         rr = [int(g.integers(1, 9)) for _ in range(len(n) - 1)]
